@@ -130,7 +130,12 @@ func runC13Stress(c *Ctx) {
 			results = append(results, c13CRLScenario(c, storage, fetch, dur, workers))
 		}
 	}
-	results = append(results, c13OCSPScenario(c, dur, workers))
+	// the OCSP cache (a third-party table with its own locks and expiry timers) needs many readers around many expiries
+	ocspDur := dur
+	if ocspDur < 5*time.Second {
+		ocspDur = 5 * time.Second
+	}
+	results = append(results, c13OCSPScenario(c, ocspDur, 64))
 	// the state "last refresh failed signature verification" and the handshake that repairs it
 	for _, storage := range []string{"memory", "disk"} {
 		r := rolloverScenario(c, storage)
